@@ -33,8 +33,8 @@ TINY = 2.0 ** -30     # "near" insertions: a non-reversal sample this close to i
 
 def bounds(tier):
     if tier == "quick":
-        return {"alphabet": A5, "n": [2, 6], "insertions": 1, "nans": 1}
-    return {"alphabet": A5, "n": [2, 8], "insertions": "1 (n<=8), 2 (n<=6)", "nans": "1 (n<=8), 2 (n<=6)"}
+        return {"alphabet": A5, "n": [2, 6], "insertions": 1, "nans": "1 at every position; runs of 3 and 4 consecutive NaNs at every position"}
+    return {"alphabet": A5, "n": [2, 8], "insertions": "1 (n<=8), 2 (n<=6)", "nans": "1 (n<=8), pairs (n<=6); runs of 3 and 4 consecutive NaNs at every position"}
 
 
 def prepare(tier):
@@ -185,9 +185,12 @@ def _check_signal(sig, deep):
             evals += 1
             judge("affine", d, got, _expect(base[d], fval=lambda v: a_ * v + b_), {"a": a_, "b": b_})
     # NaN placements: new array positions 1..n-1 (k=1) / pairs (k=2), never first or last
-    for k in ((1, 2) if deep else (1,)):
+    for k in ((1, 2, 3, 4) if deep else (1, 3, 4)):
         total = n + k
-        for pos in itertools.combinations(range(1, total - 1), k):
+        # k = 1: every position, k = 2 (deep): every pair; k = 3, 4: every *run* of consecutive NaNs (a drop-out of the sensor)
+        placements = itertools.combinations(range(1, total - 1), k) if k <= 2 else \
+            [tuple(range(p0, p0 + k)) for p0 in range(1, total - k)]
+        for pos in placements:
             new = []
             it = iter(sig)
             for j in range(total):
